@@ -34,7 +34,7 @@ def main(tier):
                "Contract on the captured stdout of the real tabulate_experiments: for every experiment and every combination of levels of the selected factors "
                "the printed frequency equals the number of selected trials having that combination, and the printed percentage (parsed as float) equals "
                "100*frequency/number of selected trials within 1e-9 relative; every combination is printed exactly once. Inputs: seeded experiment lists over "
-               "1-3 factors with 2-3 levels, trial selections None / prefixes / strided / repeated indices, with a block and with an explicit factor list. "
+               "1-3 factors with 2-3 levels (incl. trials whose value is '' or a level the selected Factor does not list), trial selections None / prefixes / strided / repeated indices, with a block and with an explicit factor list. "
                "The contract requires at least one selected trial (a percentage of nothing is undefined).")
     ck.under_contract("sweetpea._internal.main:tabulate_experiments")
     rng = random.Random(seed())
@@ -45,7 +45,13 @@ def main(tier):
         facs = [sp.Factor(f"f{i}", [f"l{i}{j}" for j in range(rng.randint(2, 3))]) for i in range(nf)]
         T = rng.randint(1, 7)
         nexp = rng.randint(1, 3)
-        exps = [{f.name: [rng.choice([l.name for l in f.levels]) for _ in range(T)] for f in facs} for _ in range(nexp)]
+        # values outside the tabulated level lists occur in practice: '' where a derived factor has no level (before its start, stride-skipped),
+        # or levels that the caller's Factor does not list; such trials are selected trials that match no row
+        extra = rng.choice([[], [], [""], ["other"], ["", "other"]])
+        exps = [{f.name: [rng.choice([l.name for l in f.levels] + extra) for _ in range(T)] for f in facs} for _ in range(nexp)]
+        if extra and rng.random() < 0.5 and T > 1:
+            for e in exps:                      # the typical shape: a preamble trial without level
+                e[facs[0].name][0] = extra[0]
         sel = rng.sample(facs, rng.randint(1, nf))
         mode = rng.choice(["none", "prefix", "stride", "repeat"])
         trials = {"none": None, "prefix": list(range(rng.randint(1, T))), "stride": list(range(0, T, 2)), "repeat": [rng.randrange(T) for _ in range(rng.randint(1, 6))]}[mode]
@@ -62,8 +68,9 @@ def main(tier):
             rows = parse(buf.getvalue(), len(sel))
         except Exception as e:
             fails += 1
-            ck.violation("C21.stdout", f"case:{mode}:raise", f"tabulate_experiments raised {e!r}", dict(experiments=exps, factors=[f.name for f in sel], trials=trials))
-            break
+            if fails <= 3:
+                ck.violation("C21.stdout", f"case:{mode}:raise", f"tabulate_experiments raised {e!r}", dict(experiments=exps, factors=[f.name for f in sel], trials=trials))
+            continue
         use = list(range(T)) if trials is None else trials
         bad = None
         if len(rows) != nexp:
@@ -82,9 +89,9 @@ def main(tier):
         ck.count((case, mode))
         if bad:
             fails += 1
-            ck.violation("C21.stdout", f"case:{mode}:{'block' if use_block else 'factors'}", f"tabulate_experiments: {bad}",
-                         dict(experiments=exps, factors=[f.name for f in sel], trials=trials, stdout=buf.getvalue()[:600]))
-            break
+            if fails <= 3:
+                ck.violation("C21.stdout", f"case:{mode}:{'block' if use_block else 'factors'}", f"tabulate_experiments: {bad}",
+                             dict(experiments=exps, factors=[f.name for f in sel], trials=trials, stdout=buf.getvalue()[:600]))
     ck.oblig("C21.stdout(all cases)", "E", "passed" if not fails else "failed", detail=f"{n_cases} seeded cases")
     ck.sample(dict(factors=2, trials="[0, 2, 4]", experiments=2, parsed_rows="(levels, frequency, percentage)"))
     ck.rule = "one case per seeded (experiments, factor selection, trial selection); non-trivial = distinct case"
